@@ -509,7 +509,7 @@ func succKey(c *Case, k dbh.Val) dbh.Val {
 		}
 		return dbh.FloatV(n)
 	default:
-		max := 120
+		max := 400
 		if c.Kind == dbh.IdxBtree {
 			max = 24
 		}
@@ -558,7 +558,7 @@ func genKey(t *rapid.T, c *Case, dense bool, l string) dbh.Val {
 			return dbh.FloatV(math.Float32frombits(rapid.Uint32().Draw(t, l)&^0x7F800000 | 0x3F000000)) // finite, spread over mantissas
 		}
 	default:
-		max := 120
+		max := 400
 		if c.Kind == dbh.IdxBtree {
 			max = 24
 		}
